@@ -29,9 +29,10 @@ def replay_lines(rep, binary, d, lines, name, cover):
             obs = o["results"][j]
             why = vlib.judge_defrag_step(exp, obs)
             if why is None:
-                fed = sum(len(vlib_bytes(op)) for op in (l["prefix"] + (l["tests"][:j + 1] if l["seq"] else [l["tests"][j]])))
-                if obs["alloc"] > 2 * 10485760 + 1024 * fed + 65536:
-                    why = "heap %d bytes after feeding %d bytes" % (obs["alloc"], fed)
+                # heap inside the call: linear in the bytes of this record, plus the (amortised, <= 2x) growth of the buffer itself
+                this = l["tests"][j]
+                if obs["alloc"] > 1024 * len(vlib_bytes(this)) + 2 * obs["buflen"] + 65536:
+                    why = "heap %d bytes inside one call for a %d-byte record (buffer %d bytes)" % (obs["alloc"], len(vlib_bytes(this)), obs["buflen"])
             if why:
                 ops = l["prefix"] + (l["tests"][:j + 1] if l["seq"] else [l["tests"][j]])
                 key = "path:%s:%s" % (exp["path"], vlib.hashlib.sha1(json.dumps(ops).encode()).hexdigest()[:10])
